@@ -1,0 +1,75 @@
+//go:build verif
+
+// Contracts for package proxyserver, checked by /verif/govc (comment-only file).
+package proxyserver
+
+//@ -- ghost trace of one serveConn activation: which effects happened, in order
+//@ -- event codes: 1 = HTTP/2 served (ServeConn returned), 2 = handed to the HTTP/1.1 server, 9 = requests_total incremented
+//@ ghost var evlog seq[int]
+//@ ghost var incCount int
+//@ ghost var lastOk string
+//@ ghost var lastProto string
+//@ ghost var servedCtx context.Context
+//@ ghost var servedConn net.Conn
+//@ ghost var lastSent net.Conn
+
+//@ -- counting: the call is the counting event (the body forwards to the Prometheus counter when registered)
+//@ func (*Server).metricsRequestsTotalInc :: server, ok, negotiatedProtocol
+//@   trusted
+//@   assigns evlog, incCount, lastOk, lastProto
+//@   ensures incCount == old(incCount) + 1 && lastOk == ok && lastProto == negotiatedProtocol
+//@   ensures evlog == old(evlog) ++ seq[int]{9}
+
+//@ func (*Server).logf
+//@   trusted
+//@   assigns nothing
+//@ func (*Server).vlogf
+//@   trusted
+//@   assigns nothing
+
+//@ func tlsRecordHeaderLooksLikeHTTP :: hdr -> result
+//@   props C10
+//@   assigns nothing
+
+//@ func isNetworkOrClientError
+//@   trusted
+//@   pure
+
+//@ func (*Server).tlsHandshakeWithTimeout :: server, tlsConn -> err
+//@   props C11,C16
+//@   requires server != nil && tlsConn != nil
+//@   assigns lastHandshakeErr, hack.HijackClientHelloConn.expectedLen, bytes.Buffer.view, iface.delivered
+//@   ensures [C16:returns-handshake-result] err == lastHandshakeErr
+//@   ensures [C04:handshake-preserves-capture-invariant] forall h *hack.HijackClientHelloConn :: old(inv(h)) ==> inv(h)
+
+//@ -- The HTTP/2 server: serves the connection, then returns. Assumed not to touch the captured ClientHello or TLS state.
+//@ func http2.(*Server).ServeConn :: s, c, opts
+//@   trusted
+//@   assigns evlog, servedCtx, servedConn, metadata.HTTP2FingerprintingFrames.Settings, metadata.HTTP2FingerprintingFrames.WindowUpdateIncrement, metadata.HTTP2FingerprintingFrames.Priorities, metadata.HTTP2FingerprintingFrames.Headers
+//@   ensures evlog == old(evlog) ++ seq[int]{1} && servedCtx == opts.Context && servedConn == c
+
+//@ func (*Server).serveConn :: server, conn
+//@   props C16,C11,C10,C06,C04
+//@   requires server != nil && conn != nil && server.HTTP2Server != nil && server.HTTPServer != nil && server.http1ConnChannelListener != nil
+//@   requires len(delivered(conn)) == 0
+//@   requires hack.ErrIncompleteClientHello != nil
+//@   structural [C10:confine-recover] confine_recover
+//@   structural [C11:close-registered-first] defers_before_calls Close
+//@   ensures [C16:exactly-once] incCount == old(incCount) + 1
+//@   ensures [C16:counted-last] len(evlog) > 0 && evlog[len(evlog)-1] == 9
+//@   ensures [C16:failed-handshake-label] lastHandshakeErr != nil ==> lastOk == "0" && lastProto == ""
+//@   ensures [C16:failed-capture-label] lastHandshakeErr == nil && err#2 != nil ==> lastOk == "0" && lastProto == ""
+//@   ensures [C16:success-label] lastHandshakeErr == nil && err#2 == nil ==> lastOk == "1" && lastProto == lastNegotiated
+//@   ensures [C04:no-service-without-capture] lastHandshakeErr != nil || err#2 != nil ==> evlog == old(evlog) ++ seq[int]{9}
+//@   ensures [C04:capture-is-first-record] lastHandshakeErr == nil && err#2 == nil ==> complete(delivered(conn)) && rec == delivered(conn)[:5+decl(delivered(conn))]
+//@   ensures [C06:h2-own-metadata] lastHandshakeErr == nil && err#2 == nil && lastNegotiated == "h2" ==> evlog == old(evlog) ++ seq[int]{1, 9} && fresh(ctxMeta(servedCtx)) && ctxMeta(servedCtx).ClientHelloRecord == rec && ctxMeta(servedCtx).ConnectionState.NegotiatedProtocol == lastNegotiated && isptr(tls.Conn, servedConn) && unboxptr(tls.Conn, servedConn) == tlsConn
+//@   ensures [C06:h1-own-conn] lastHandshakeErr == nil && err#2 == nil && lastNegotiated != "h2" ==> evlog == old(evlog) ++ seq[int]{2, 9} && isptr(hack.TLSClientHelloConn, lastSent) && fresh(unboxptr(hack.TLSClientHelloConn, lastSent)) && unboxptr(hack.TLSClientHelloConn, lastSent).ClientHelloRecord == rec && unboxptr(hack.TLSClientHelloConn, lastSent).Conn == tlsConn
+//@   ensures [C11:conn-closed] closed(conn) >= old(closed(conn)) + 1
+//@   ensures [C11:tls-closed] tlsConn.tlsClosed >= 1
+
+//@ func updateConnContext :: ctx, c -> result
+//@   props C06
+//@   requires isptr(hack.TLSClientHelloConn, c) ==> unboxptr(hack.TLSClientHelloConn, c) != nil && unboxptr(hack.TLSClientHelloConn, c).Conn != nil
+//@   assigns lastNegotiated
+//@   ensures [C06:fresh-metadata] result != nil && ctxMeta(result) != nil && fresh(ctxMeta(result)) && ctxParent(result) == ctx
+//@   ensures [C06:copies-own-conn] isptr(hack.TLSClientHelloConn, c) ==> ctxMeta(result).ClientHelloRecord == unboxptr(hack.TLSClientHelloConn, c).ClientHelloRecord
